@@ -3,6 +3,8 @@ package main
 import (
 	"errors"
 	"fmt"
+	"os"
+	"path/filepath"
 	"strconv"
 	"strings"
 
@@ -47,6 +49,9 @@ func runC16(r *run) {
 			// the same construct with text inserted in front (position shift)
 			pre := g.rg.pick([]string{"x", "ab\n", "\n\n  ", "é\r\nzz", "12345", "\ufeff", "\ufeffab", "\xef\xbb", "\u2028", "\x00", "\t"})
 			emit(caseT{"lexshift", []string{hx(pre), hx(src)}})
+		}
+		for i := 0; i < 40; i++ {
+			emit(caseT{"rawline", []string{fmt.Sprint(i)}})
 		}
 		nerr := 1500
 		if r.tier == "thorough" {
@@ -134,6 +139,8 @@ func tokenAt(src string, t *pongo2.Token) string {
 
 func execC16(r *run, c caseT) {
 	switch c.op {
+	case "rawline":
+		execRawLine(r, c)
 	case "errfile":
 		execErrFile(r, c)
 	case "lex":
@@ -396,5 +403,51 @@ func execErrFile(r *run, c caseT) {
 				r.reject(id, "error: "+why+" (in the named source)", detail)
 			}
 		}
+	}
+}
+
+// Error.RawLine: for a template loaded from disk, the source line the error points at
+func execRawLine(r *run, c caseT) {
+	var i int
+	fmt.Sscanf(c.args[0], "%d", &i)
+	g := newRng(uint64(777 + i))
+	nl := g.intn(5)
+	var lines []string
+	for k := 0; k < nl; k++ {
+		lines = append(lines, g.pick([]string{"plain", "", "  indented é", "{{ a }}", "<p>"}))
+	}
+	bad := g.pick([]string{"x {% nosuchtag %} y", "{{ 1 + }}", "ab {{ a| }}", "\t{% if %}", "{{ boom() }} z"})
+	lines = append(lines, bad, "after")
+	src := strings.Join(lines, "\n")
+	dir := filepath.Join(r.outdir, "rawline")
+	must(os.MkdirAll(dir, 0o755))
+	name := fmt.Sprintf("t%d.tpl", i)
+	must(os.WriteFile(filepath.Join(dir, name), []byte(src), 0o644))
+	set := pongo2.NewSet("rawline", pongo2.MustNewLocalFileSystemLoader(dir))
+	tpl, err := set.FromFile(name)
+	if err == nil {
+		_, err = tpl.Execute(pongo2.Context{"boom": func() (*pongo2.Value, error) { return nil, errors.New("boom") }, "a": 1})
+	}
+	obs := "none"
+	var perr *pongo2.Error
+	if err != nil {
+		perr, _ = err.(*pongo2.Error)
+	}
+	line, avail := "", false
+	if perr != nil {
+		var e2 error
+		line, avail, e2 = perr.RawLine()
+		obs = fmt.Sprintf("%d:%v:%v:%s", perr.Line, avail, e2 == nil, line)
+	}
+	id := r.emit(c.op, c.args, "rawline:"+hx(obs))
+	r.nontrivial("rawline" + c.args[0])
+	detail := map[string]any{"source": src, "observed": obs}
+	switch {
+	case perr == nil:
+		r.reject(id, "a failing construct produced no pongo2 error", detail)
+	case perr.Line != nl+1:
+		r.reject(id, "the error does not point at the line of the offending construct", detail)
+	case !avail || line != bad:
+		r.reject(id, "RawLine does not give the source line the error points at", detail)
 	}
 }
